@@ -75,7 +75,11 @@ func colorMain(args []string) error {
 	}
 	sort.Strings(tn)
 	for _, name := range tn {
-		emit(trace.Ev{"ev": "TcellName", "name": name, "hex": int(tcell.ColorNames[name].Hex())})
+		c := tcell.ColorNames[name]
+		// the way back: Name() of the colour is some name of the same value, String() is that or the CSS form
+		back, str := c.Name(), c.String()
+		emit(trace.Ev{"ev": "TcellName", "name": name, "hex": int(c.Hex()), "backhex": int(tcell.GetColor(back).Hex()),
+			"strhex": int(tcell.GetColor(str).Hex())})
 	}
 	// special / invalid colours
 	for which, c := range map[string]tcell.Color{"default": tcell.ColorDefault, "none": tcell.ColorNone, "reset": tcell.ColorReset,
